@@ -631,8 +631,13 @@ class W1TWorld(World):
                     self.flag('no_internal_id_twice', dict(sigx, symptom='counter_behind'),
                               'graph %s: next internal id %s not beyond largest in use %s' %
                               (gid, inst.graph_node_ids[gid], max(ks)))
+        # an exception injected into the shared store can leave its ONE id counter behind a node it already stored;
+        # the next allocation (by any thread, for any graph) then overwrites that node. What the graphs hold after an
+        # injected fault is not what the property speaks of (it demands the lock discipline there), so content is
+        # judged on the shared store only in fault-free runs, and per graph on the disjoint store.
+        content_judged = not (store == 'shared' and sched.fired)
         for g in sorted(set(exp_nodes) | set(got_nodes)):
-            if g in uncertain_graphs:
+            if g in uncertain_graphs or not content_judged:
                 continue
             opt = optional_nodes.get(g, set())
             want = sorted(exp_nodes.get(g, set()) - opt)
